@@ -5,7 +5,7 @@ from framework import coq_bs, coq_z, coq_list, coq_opt
 ID = 'C02'
 COQ_IMPORTS = ['G_gff', 'C02_Model']
 GENERATORS = ['gen_gff']
-RULE = ('nine streams and a relational transport check (the same list through file name, Path, handles, offsets, BytesIO, gzip, archive=, glob, Feature.write, write_fts(): text and features must equal those of the string transport): (disp) write_fts / read_fts with fmt in any spelling or taken from the extension (right, wrong-case and unknown extensions, unknown format names, fmt against extension), via string and file, meta._fmt observed; (xsvw) FeatureLists -> TSV/CSV text -> records for any list of column names (subsets, repetitions, defect, foreign metadata columns), keys as list / tuple / one string with arbitrary white space, fourteen separators, ftype naming a column or a literal, via str / file / detection: the written text is compared byte for byte with the model, the records or the KeyError with the model and the oracle; (xsvr) tables written by other programs (columns by name anywhere, contradicting len, negative coordinates, blank lines, empty ranges, unknown strands, missing columns); (seqgff) BioBaskets whose sequences carry features (some without seqid, some naming another or no sequence) '
+RULE = ('nine streams and a relational transport check (the same list through file name, Path, handles, BytesIO, gzip, archive=, glob, Feature.write, write_fts() and through streams at their current position - StringIO / text file handle / BytesIO / binary file handle x fmt given / detected x offset 0 / behind an earlier table written into the same stream / behind a title line skipped with readline() -: text and features must equal those of the string transport); about 30 % of the obj, text and xsvw cases are written and read through such a stream as well and compared with the model and the oracle like every other case: (disp) write_fts / read_fts with fmt in any spelling or taken from the extension (right, wrong-case and unknown extensions, unknown format names, fmt against extension), via string and file, meta._fmt observed; (xsvw) FeatureLists -> TSV/CSV text -> records for any list of column names (subsets, repetitions, defect, foreign metadata columns), keys as list / tuple / one string with arbitrary white space, fourteen separators, ftype naming a column or a literal, via str / file / detection: the written text is compared byte for byte with the model, the records or the KeyError with the model and the oracle; (xsvr) tables written by other programs (columns by name anywhere, contradicting len, negative coordinates, blank lines, empty ranges, unknown strands, missing columns); (seqgff) BioBaskets whose sequences carry features (some without seqid, some naming another or no sequence) '
         'through write(fmt=gff) / read(fmt=gff or detected); TSV/CSV selections with extra metadata columns named like MMseqs2/BLAST '
         'columns, read back with fmt= and with auto-detection; (hist) histories on the same live FeatureLists / texts: repeated GFF cycles and TSV/CSV writes with different '
         'column selections in any order, in-place edits (aliases, _gff entries, locations) in between, mutation of every returned '
@@ -121,8 +121,90 @@ def build_fts(spec_fts):
 
 # ----------------------------------------------------------------------------- implementation driver
 
+STREAMS = ('sio', 'tfh', 'bio', 'bfh')        # io.StringIO, file opened in text mode, io.BytesIO, file opened in binary mode
+TITLES = ['exported by some tool; the table starts in the next line\n', '# a comment line\n', 'start,stop,len\n', 'start\tstop\tstrand\n',
+          '##gff-version 2\n', '\n', 'chr1\t.\tgene\t1\t9\t.\t+\t.\tID=title\n', 'title with \u00e4 in it\n']
+_PRE_KEYS = 'type start stop strand'
+
+
+def _pre_text(via, fmt, kw):
+    """what the stream holds in front of the table: nothing, an earlier table written by sugar in the same format, a title line"""
+    pre = via.get('pre')
+    if not pre:
+        return ''
+    if pre[0] == 'title':
+        return pre[1]
+    return build_fts(pre[1]).tofmtstr(fmt, **({} if fmt == 'gff' else dict({k: v for k, v in kw.items() if k == 'sep'}, keys=_PRE_KEYS)))
+
+
+def _stream_read(text, fmt, kw, via, det):
+    """read_fts from the CURRENT position of a stream that holds the table behind earlier content: the position is where the
+    earlier table ended (seek to the offset tell() gave) or behind a title line the caller skipped with readline()"""
+    from sugar import read_fts
+    pre = _pre_text(via, fmt, kw)
+    content = pre + text
+    w = via['w']
+    fn = None
+    try:
+        if w in ('tfh', 'bfh'):
+            fd, fn = tempfile.mkstemp(suffix='.dat', prefix='C02-', dir='/tmp')
+            with os.fdopen(fd, 'w', newline='', encoding='utf-8') as f:
+                f.write(content)
+            f = open(fn, newline='', encoding='utf-8') if w == 'tfh' else open(fn, 'rb')
+        else:
+            f = io.StringIO(content) if w == 'sio' else io.BytesIO(content.encode('utf-8'))
+        try:
+            if pre and via['pre'][0] == 'title':
+                for _ in range(pre.count('\n')):
+                    f.readline()
+            elif pre:
+                f.seek(len(pre) if w == 'sio' else len(pre.encode('utf-8')))
+            return read_fts(f, **kw) if det else read_fts(f, fmt, **kw)
+        finally:
+            f.close()
+    finally:
+        if fn is not None:
+            os.remove(fn)
+
+
+def _stream_write(fts, fmt, kw, via):
+    """FeatureList.write into a stream that already holds earlier content; returns what was written behind it"""
+    pre = _pre_text(via, fmt, {k: v for k, v in kw.items() if k == 'sep'})
+    w = via['w']
+    fn = None
+    try:
+        if w in ('tfh', 'bfh'):
+            fd, fn = tempfile.mkstemp(suffix='.dat', prefix='C02-', dir='/tmp')
+            os.close(fd)
+            f = open(fn, 'w', newline='', encoding='utf-8') if w == 'tfh' else open(fn, 'wb')
+        else:
+            f = io.StringIO() if w == 'sio' else io.BytesIO()
+        try:
+            f.write(pre if w in ('sio', 'tfh') else pre.encode('utf-8'))
+            pos = f.tell()
+            fts.write(f, fmt, **kw)
+            assert not f.closed, 'the writer closed the stream it was given'
+            if fn is None:
+                content = f.getvalue()
+        finally:
+            f.close()
+        if fn is not None:
+            with open(fn, 'rb') as g:
+                content = g.read()
+        if isinstance(content, bytes):
+            content = content.decode('utf-8')
+        assert content.startswith(pre), 'earlier content of the stream changed by the writer'
+        return content[len(pre):]
+    finally:
+        if fn is not None:
+            os.remove(fn)
+
+
 def _read(text, via):
     from sugar import read_fts
+    if isinstance(via, dict):
+        # detection is asked for when the text announces itself as GFF3 (the version pragma the specification requires)
+        return _stream_read(text, 'gff', {}, via, bool(via.get('det')) and text.startswith('##gff-version 3'))
     if via == 'file':
         fd, fn = tempfile.mkstemp(suffix='.gff', prefix='C02-', dir='/tmp')
         try:
@@ -135,6 +217,8 @@ def _read(text, via):
 
 
 def _write(fts, via):
+    if isinstance(via, dict):
+        return _stream_write(fts, 'gff', {}, via)
     if via == 'file':
         fd, fn = tempfile.mkstemp(suffix='.gff', prefix='C02-', dir='/tmp')
         os.close(fd)
@@ -342,11 +426,13 @@ def _xsv_kw(sepname, fmt):
     return sep, ({} if (fmt, sep) in (('tsv', '\t'), ('csv', ',')) else {'sep': sep})
 
 
-def _read_records(text, fmt, kw, via='str'):
+def _read_records(text, fmt, kw, via='str', det=False):
     """read a table; the exception classes frompandas / read_csv are specified to raise are part of the observation"""
     from sugar import read_fts
     try:
-        if via == 'file':
+        if isinstance(via, dict):
+            back = _stream_read(text, fmt, kw, via, det)
+        elif via == 'file':
             fd, fn = tempfile.mkstemp(suffix='.' + fmt, prefix='C02-', dir='/tmp')
             try:
                 with os.fdopen(fd, 'w', newline='') as f:
@@ -359,7 +445,7 @@ def _read_records(text, fmt, kw, via='str'):
     except (KeyError, ValueError) as e:
         n = type(e).__name__
         return {'e': n if n in ('KeyError', 'ValueError', 'EmptyDataError') else 'ValueError'}
-    assert all(ft.meta.get('_fmt') == fmt for ft in back), 'meta._fmt'
+    assert all(ft.meta.get('_fmt') == fmt for ft in back), 'meta._fmt is %r' % ([ft.meta.get('_fmt') for ft in back][:1],)
     return [_obs_rec(ft) for ft in back]
 
 
@@ -368,7 +454,9 @@ def _xsvw(fts, names, keystr, sepname, fmt, ft, auto, via='str'):
     sep, kw = _xsv_kw(sepname, fmt)
     keys = keystr if keystr is not None else (list(names) if len(names) % 2 else tuple(names))
     before = obs_fts(fts)
-    if via == 'file':
+    if isinstance(via, dict):
+        text = _stream_write(fts, fmt, dict(kw, keys=keys), via)
+    elif via == 'file':
         fd, fn = tempfile.mkstemp(suffix='.' + fmt, prefix='C02-', dir='/tmp')
         os.close(fd)
         try:
@@ -388,6 +476,10 @@ def _xsvw(fts, names, keystr, sepname, fmt, ft, auto, via='str'):
     if ft is not None:
         rkw['ftype'] = ft
     res = _read_records(text, fmt, rkw, via)
+    if isinstance(via, dict) and via.get('det') and not kw and ft is None and isinstance(res, list):
+        # the same stream read from the same position with format auto-detection (default separator: the sniffers know no other)
+        res2 = _read_records(text, fmt, rkw, via, det=True)
+        assert res2 == res, 'stream %s at the offset of the table, format detected: %r' % (via['w'], res2)
     if auto and not kw and ft is None and isinstance(res, list) and via == 'str':
         # the same file read with format auto-detection, as sugar's own table tests do
         from sugar import read_fts
@@ -1248,6 +1340,28 @@ def rfeature(rng, idx, in_domain=True):
     return {'meta': meta, 'gff': gff, 'locs': out}
 
 
+def _pre_feat(rng, i):
+    a = rng.choice([0, 3, 17, 1000])
+    locs = [[a, a + rng.choice([1, 9, 300]), rng.choice('+-'), None]]
+    if rng.random() < 0.3:
+        locs.append([locs[0][1] + 5, locs[0][1] + 25, locs[0][2], None])
+    return {'meta': [['type', [0, rng.choice(['gene', 'exon', 'CDS'])]], ['id', [0, 'pre%d' % i]], ['seqid', [0, 'chr0']]], 'gff': None, 'locs': locs}
+
+
+def gen_via(rng, p=0.3):
+    """the transport of a case: the string / file name transports of the earlier rounds, or (p) a stream that is read and written
+    at its current position: {StringIO, text file handle, BytesIO, binary file handle} x {fmt given, fmt detected} x
+    {offset 0, behind an earlier table written into the same stream, behind a title line skipped with readline()}"""
+    if rng.random() >= p:
+        return 'file' if rng.random() < 0.1 else 'str'
+    pre = rng.choice([None, 'table', 'table', 'title', 'title'])
+    if pre == 'table':
+        pre = ['table', [_pre_feat(rng, i) for i in range(rng.choice([1, 2, 3]))]]
+    elif pre == 'title':
+        pre = ['title', rng.choice(TITLES)]
+    return {'w': rng.choice(STREAMS), 'det': rng.random() < 0.65, 'pre': pre}
+
+
 def gen_obj(rng, in_domain=True):
     n = rng.choice([1, 1, 2, 2, 3, 4])
     fts = [rfeature(rng, i, in_domain) for i in range(n)]
@@ -1262,7 +1376,7 @@ def gen_obj(rng, in_domain=True):
     for f in fts:
         if rng.random() < 0.15:
             f['_ctor'] = rng.choice(['kw', 'tuple', 'type'])
-    return {'_k': 'obj', 'fts': fts, '_via': 'file' if rng.random() < 0.1 else 'str'}
+    return {'_k': 'obj', 'fts': fts, '_via': gen_via(rng)}
 
 
 def q_indep(rng, s, style):
@@ -1350,7 +1464,7 @@ def gen_text(rng, in_domain=True):
             lines.append((a, b, sd, attrs, score, phase))
         fts.append({'seqid': rng.choice(['chr1', 'chr1', 'NC 1', 'a;b=c', None]), 'source': rng.choice([None, 'RefSeq', 'my tool']),
                     'type': rng.choice(TYPES + [None]), 'lines': lines})
-    return {'_k': 'text', 't': render_text(rng, fts), '_via': 'file' if rng.random() < 0.1 else 'str'}
+    return {'_k': 'text', 't': render_text(rng, fts), '_via': gen_via(rng)}
 
 
 def gen_edit(rng):
@@ -1605,7 +1719,7 @@ def gen_xsvw(rng):
     fmt = rng.choice(['tsv', 'csv'])
     sep = {'tsv': 'tab', 'csv': 'comma'}[fmt] if rng.random() < 0.45 else rng.choice(list(SEPS))
     c = {'_k': 'xsvw', 'names': names, 'keystr': None, '_sep': sep, '_fmt': fmt, 'fts': fts, 'ft': None,
-         '_auto': rng.random() < 0.5, '_via': 'file' if rng.random() < 0.1 else 'str'}
+         '_auto': rng.random() < 0.5, '_via': gen_via(rng)}
     if rng.random() < 0.45 and all(n and not any(ch.isspace() for ch in n) for n in names):
         gaps = [rng.choice([' ', ' ', '  ', '\t', ' \t ', '\n', '\x0b ', '\r\n']) for _ in names]
         ks = ''.join(n + g for n, g in zip(names, gaps))[:-len(gaps[-1])] if names else ''
@@ -1820,6 +1934,9 @@ def nontrivial(case, got):
 
 def histkey(case, got):
     ks = ['kind=' + case['_k'], 'result=' + ('error:' + got['e'] if isinstance(got, dict) else 'ok')]
+    v = case.get('_via')
+    if isinstance(v, dict):
+        ks.append('stream=%s,%s,%s' % (v['w'], 'fmt detected' if v.get('det') else 'fmt given', 'offset 0' if not v.get('pre') else 'behind a ' + v['pre'][0]))
     if case['_k'] == 'seqgff':
         if isinstance(got, list):
             ks.append('seqgff-kept=%d' % len(got[1]))
@@ -1963,11 +2080,25 @@ def _transport_checks(rng, tier, cov):
                 with open(p1, newline='') as f:
                     return read_fts(f, fmt, **rkw)
             rd('read: text handle', r_handle)
-            def r_offset():
-                f = io.StringIO('junk\nmore junk\n' + base)
-                f.seek(len('junk\nmore junk\n'))
-                return read_fts(f, fmt, **rkw)
-            rd('read: stream at an offset', r_offset)
+            # streams read from their current position: every stream kind x fmt given / detected x what lies in front of the table
+            sepd = {'tsv': '\t', 'csv': ','}.get(fmt)
+            rows = [ln.split(sepd) for ln in base.split('\n')[:-1]] if fmt != 'gff' else []
+            detectable = fmt == 'gff' or (not rkw and len(rows) >= 2 and '"' not in base and all(len(r) == len(rows[0]) for r in rows)
+                                          and sum(k in rows[0] for k in ('start', 'stop', 'len')) >= 2)
+            pres = [None, ['table', [_pre_feat(rng, i) for i in range(rng.choice([1, 2, 3]))]], ['title', rng.choice(TITLES)]]
+            for w in STREAMS:
+                for det in ((False, True) if detectable else (False,)):
+                    for pre in pres:
+                        via = {'w': w, 'det': det, 'pre': pre}
+                        rd('read: %s, %s, %s' % ({'sio': 'StringIO', 'tfh': 'text file handle', 'bio': 'BytesIO', 'bfh': 'binary file handle'}[w],
+                                                 'fmt detected' if det else 'fmt given',
+                                                 'offset 0' if pre is None else 'from the offset behind an earlier table' if pre[0] == 'table'
+                                                 else 'behind a title line skipped with readline()'),
+                           lambda via=via, det=det: _stream_read(base, fmt, rkw, via, det))
+            for w in STREAMS:
+                for pre in pres[1:]:
+                    wr('write: %s behind %s' % (w, 'an earlier table' if pre[0] == 'table' else 'a title line'),
+                       lambda w=w, pre=pre: _stream_write(fts, fmt, kw, {'w': w, 'pre': pre}))
             rd('read: BytesIO', lambda: read_fts(io.BytesIO(base.encode()), fmt, **rkw))
             def r_gz():
                 p = p1 + '.gz'
@@ -2049,6 +2180,10 @@ def python_snippet(case):
         return ("import sys; sys.path.insert(0, '/verif/tools')\nfrom props.c02 import impl\ncase = %r\nfor part in impl(case): print(part)" % (case,))
     if case['_k'] in ('xsvw', 'xsvr', 'disp'):
         return ("import sys; sys.path.insert(0, '/verif/tools')\nfrom props.c02 import impl\ncase = %r\nprint(impl(case))" % (case,))
+    if isinstance(case.get('_via'), dict):
+        return ("import sys; sys.path.insert(0, '/verif/tools')\nfrom props.c02 import impl\ncase = %r\n"
+                "# _via: stream kind w (sio/tfh/bio/bfh), det = read without fmt, pre = what the stream holds in front of the table\n"
+                "for part in impl(case): print(part)" % (case,))
     if case['_k'] == 'text':
         return ("import io\nfrom sugar import read_fts\nt = %r\nx = read_fts(io.StringIO(t), fmt='gff')\nw1 = x.tofmtstr('gff')\n"
                 "x1 = read_fts(io.StringIO(w1), fmt='gff')\nw2 = x1.tofmtstr('gff')\nw3 = read_fts(io.StringIO(w2), fmt='gff').tofmtstr('gff')\n"
@@ -2119,9 +2254,13 @@ LEVEL_NOTE = ('Proved (51 theorems, all closed under the global context): unquot
               '(ID, type, seqid) are one feature to the reader (C02_adjacent_same_id_refuted). Per-line source (F38) is inside the domain: '
               'C02_loc_source_kept. Only tested, not proved: split features without ID (the writer invents distinct IDs); default_ftype beyond its '
               'role in filt; file order of the lines of a split feature (beyond the ordering theorems); '
-              'state independence (histories); every transport (file name, Path, text handle, handle / stream at an offset, BytesIO, gzip, '
+              'state independence (histories); every transport (file name, Path, text handle, BytesIO, gzip, '
               'archive=, a glob with one match, Feature.write, the write_fts function: relational check against the plain string transport '
-              'on every run), format detection by content (C03 has the theorems) and meta._fmt; everything pandas does beyond the unquoted cell grid (quoting of '
+              'on every run); tables inside streams (GFF, TSV, CSV written into and read from the current position of a StringIO, a text '
+              'file handle, a BytesIO or a binary file handle, with fmt given and with fmt detected, at offset 0, behind an earlier table '
+              'written into the same stream and behind a title line skipped with readline(): the whole grid in the relational check on '
+              'every run, and as the transport of about 30 % of the obj / text / xsvw cases, where what is read from the second table\'s '
+              'offset is compared with the model of that table alone and with the oracle; there is no theorem about stream positions), format detection by content (C03 has the theorems) and meta._fmt; everything pandas does beyond the unquoted cell grid (quoting of '
               'cells that contain the separator / quotes / line breaks - sugar has no code of its own for it -, dtype inference, NA words: '
               'such cells are outside the model\'s domain flag). '
               'Statement coverage of the modelled functions in the quick tier: 100 % except sugar/_io/tab/xsv.py lines 86-87 and 95-96 '
